@@ -493,7 +493,8 @@ Proof.
     + intros H. destruct (T H) as [H1 H2]. split; [exact H1|exact H2].
     + right. split; [reflexivity|].
       assert (Hnn : ~ In n ((qaddr s :: l1) ++ l2)).
-      { apply Ring_NoDup in R. apply NoDup_remove_2 in R. exact R. }
+      { apply Ring_NoDup in R. change (qaddr s :: l1 ++ n :: l2) with ((qaddr s :: l1) ++ n :: l2) in R.
+        apply NoDup_remove_2 in R. exact R. }
       apply (remove_master w X s w1 n h2 l1 l2); auto.
       * eapply Ring_Frame; [exact R1|exact F2|]. intros x Hx [<-|[]]. exact (Hnn Hx).
       * eapply Frame_incl; [eapply Frame_trans; eauto|]. rewrite Hsel.
@@ -502,4 +503,130 @@ Proof.
            apply in_app_or in Hx. apply in_or_app. simpl. tauto.
         -- right. apply in_or_app. right. left. reflexivity.
       * intros x. rewrite L2. apply L1.
+Qed.
+
+(* ------------------------------------------------------------------ pull_fore / pull_back *)
+Lemma QInv_head_notin w X s : QInv w X -> ~ In (qaddr s) (sel s X).
+Proof. intros I H. eapply QInv_sentinel_notin; eauto. eapply allnodes_sel; eauto. Qed.
+
+Lemma pull_ok fore w X s :
+  QInv w X ->
+  exists w' r, q_pull fore w s = Ok (w', r) /\ trace_ok w w' /\
+    match (if fore then sel s X else rev (sel s X)) with
+    | [] => r = 0 /\ w' = w
+    | n :: t =>
+        (r = 0 /\ QInv w' X /\ abs w' X = abs w X /\ failed w' = true) \/
+        (r = n /\ let X' := upd s (if fore then t else rev t) X in
+         QInv w' X' /\ abs w' X' = upd s (pairs w (if fore then t else rev t)) (abs w X))
+    end.
+Proof.
+  intros I. unfold q_pull. pose proof (qi_ring _ _ I s) as R.
+  destruct fore.
+  - rewrite (Ring_next _ [] (qaddr s) (sel s X) R). cbn [lift hd].
+    destruct (sel s X) as [|n t] eqn:Hsel.
+    + cbn [hd]. rewrite N.eqb_refl. exists w, 0. split; [reflexivity|]. split; [apply trace_ok_refl|auto].
+    + cbn [hd]. replace (N.eqb n (qaddr s)) with false.
+      2:{ symmetry. apply N.eqb_neq. intros ->. apply (QInv_head_notin w X s I). rewrite Hsel. left. reflexivity. }
+      destruct (take_ok w X s [] n t I Hsel) as (w' & r & E & T & C). exists w', r.
+      split; [exact E|]. split; [exact T|]. exact C.
+  - rewrite (Ring_prev _ [] (qaddr s) (sel s X) R). cbn [lift last].
+    destruct (snoc_cases (sel s X)) as [Hsel|(m & n & Hsel)]; rewrite Hsel.
+    + cbn [last rev]. rewrite N.eqb_refl. exists w, 0. split; [reflexivity|]. split; [apply trace_ok_refl|auto].
+    + rewrite last_last, rev_app_distr. cbn [rev app].
+      replace (N.eqb n (qaddr s)) with false.
+      2:{ symmetry. apply N.eqb_neq. intros ->. apply (QInv_head_notin w X s I). rewrite Hsel.
+          apply in_or_app. right. left. reflexivity. }
+      destruct (take_ok w X s m n [] I Hsel) as (w' & r & E & T & C). exists w', r.
+      split; [exact E|]. split; [exact T|]. rewrite rev_involutive.
+      rewrite !app_nil_r in C. unfold pairs at 2 in C. cbn [map] in C. rewrite app_nil_r in C. exact C.
+Qed.
+
+(* ------------------------------------------------------------------ walking to a position *)
+Lemma seek_fwd_spec h c pre l k fuel :
+  Ring h (c :: pre ++ l) -> (length l < fuel)%nat ->
+  seek true h c (hd c l) k fuel = Ok (nth (N.to_nat k) l 0).
+Proof.
+  revert pre k fuel. induction l as [|a l IH]; intros pre k fuel R Hf.
+  - destruct fuel; [lia|]. simpl. rewrite N.eqb_refl. destruct (N.to_nat k); reflexivity.
+  - destruct fuel; [simpl in Hf; lia|]. cbn [seek hd].
+    assert (Hac : a <> c).
+    { apply Ring_NoDup in R. inversion R; subst. intros ->. apply H1. apply in_or_app. right. left. reflexivity. }
+    replace (N.eqb a c) with false by (symmetry; apply N.eqb_neq; exact Hac).
+    destruct (N.eqb k 0) eqn:Hk.
+    + apply N.eqb_eq in Hk. subst k. reflexivity.
+    + apply N.eqb_neq in Hk.
+      change (c :: pre ++ a :: l) with ((c :: pre) ++ a :: l) in R.
+      rewrite (Ring_next h (c :: pre) a l R). cbn [lift hd].
+      replace (N.to_nat k) with (S (N.to_nat (k - 1))) by lia. cbn [nth].
+      apply (IH (pre ++ [a])).
+      * rewrite <- app_assoc. exact R.
+      * simpl in Hf. lia.
+Qed.
+
+Lemma seek_bwd_spec h c l post k fuel :
+  Ring h (c :: l ++ post) -> (length l < fuel)%nat ->
+  seek false h c (last l c) k fuel = Ok (nth (N.to_nat k) (rev l) 0).
+Proof.
+  revert post k fuel. induction l as [|a l IH] using rev_ind; intros post k fuel R Hf.
+  - destruct fuel; [lia|]. simpl. rewrite N.eqb_refl. destruct (N.to_nat k); reflexivity.
+  - rewrite app_length in Hf. simpl in Hf. destruct fuel; [lia|]. rewrite last_last, rev_app_distr. cbn [seek rev app].
+    assert (Hac : a <> c).
+    { apply Ring_NoDup in R. inversion R; subst. intros ->. apply H1. apply in_or_app. left. apply in_or_app.
+      right. left. reflexivity. }
+    replace (N.eqb a c) with false by (symmetry; apply N.eqb_neq; exact Hac).
+    destruct (N.eqb k 0) eqn:Hk.
+    + apply N.eqb_eq in Hk. subst k. reflexivity.
+    + apply N.eqb_neq in Hk.
+      rewrite <- app_assoc in R. cbn [app] in R.
+      change (c :: l ++ a :: post) with ((c :: l) ++ a :: post) in R.
+      rewrite (Ring_prev h (c :: l) a post R). cbn [lift].
+      replace (N.to_nat k) with (S (N.to_nat (k - 1))) by lia. cbn [nth].
+      rewrite last_cons_default.
+      apply (IH (a :: post)).
+      * exact R.
+      * lia.
+Qed.
+
+Lemma QInv_fuel w X s : QInv w X -> (length (sel s X) < fuel_of w)%nat.
+Proof.
+  intros I. pose proof (qi_fresh _ _ I) as F. unfold fuel_of.
+  assert (length (sel s X) <= length (allnodes w X))%nat.
+  { unfold allnodes. rewrite !app_length. destruct s; simpl; lia. }
+  lia.
+Qed.
+
+(* ------------------------------------------------------------------ at / fore / back *)
+Lemma at_ok w X s idx : QInv w X -> q_at w s idx = Ok (at_spec (sel s (abs w X)) idx).
+Proof.
+  intros I. unfold q_at, at_spec. rewrite sel_abs, map_fst_pairs.
+  pose proof (qi_ring _ _ I s) as R. pose proof (QInv_fuel w X s I) as Hf.
+  destruct (Z.leb 0 idx) eqn:Hi.
+  - rewrite (Ring_next _ [] (qaddr s) (sel s X) R). cbn [lift hd].
+    rewrite (seek_fwd_spec (w_h w) (qaddr s) [] (sel s X)); auto.
+    rewrite Z_N_nat. reflexivity.
+  - rewrite (Ring_prev _ [] (qaddr s) (sel s X) R). cbn [lift last].
+    rewrite (seek_bwd_spec (w_h w) (qaddr s) (sel s X) []); auto.
+    + rewrite Z_N_nat. reflexivity.
+    + rewrite app_nil_r. exact R.
+Qed.
+
+Lemma fore_ok w X s : QInv w X -> q_fore w s = Ok (hd 0 (map fst (sel s (abs w X)))).
+Proof.
+  intros I. unfold q_fore. rewrite sel_abs, map_fst_pairs. pose proof (qi_ring _ _ I s) as R.
+  rewrite (Ring_next _ [] (qaddr s) (sel s X) R). cbn [lift hd].
+  destruct (sel s X) as [|n t] eqn:Hsel; cbn [hd].
+  - rewrite N.eqb_refl. reflexivity.
+  - replace (N.eqb n (qaddr s)) with false; [reflexivity|].
+    symmetry. apply N.eqb_neq. intros ->. apply (QInv_head_notin w X s I). rewrite Hsel. left. reflexivity.
+Qed.
+
+Lemma back_ok w X s : QInv w X -> q_back w s = Ok (last (map fst (sel s (abs w X))) 0).
+Proof.
+  intros I. unfold q_back. rewrite sel_abs, map_fst_pairs. pose proof (qi_ring _ _ I s) as R.
+  rewrite (Ring_prev _ [] (qaddr s) (sel s X) R). cbn [lift last].
+  destruct (snoc_cases (sel s X)) as [Hsel|(m & n & Hsel)]; rewrite Hsel.
+  - cbn [last]. rewrite N.eqb_refl. reflexivity.
+  - rewrite !last_last. replace (N.eqb n (qaddr s)) with false; [reflexivity|].
+    symmetry. apply N.eqb_neq. intros ->. apply (QInv_head_notin w X s I). rewrite Hsel.
+    apply in_or_app. right. left. reflexivity.
 Qed.
